@@ -34,6 +34,8 @@ type Profile struct {
 	BoundaryTo  []string // preferred deadline kinds for boundary-aimed block gaps
 	DecayBias   float64  // probability that an asset decays (default 0.35)
 	MinAssets   int      // at least this many assets (C19: several assets and reward denoms per validator)
+	JailOnly    bool     // downtime slash fraction 0: validators are jailed (leave the bonded set) without any value change
+	PDrain      float64  // per block: start a drain (every known position of one asset exits in full over two blocks, then a new staking cycle begins)
 	PBurst      float64  // per block: start a packed scenario (same-block multi-denom/multi-validator exits, fan-in redelegations, ...)
 	PExport     float64  // per block: export/import (hard fork) at the block boundary
 	Clean       map[string]bool // preconditions of open known findings the generator must avoid (clean mode)
@@ -49,6 +51,7 @@ func baseProfile() *Profile {
 			"gov_create": 2, "gov_update": 3, "gov_delete": 1, "gov_params": 1, "gov_staking_params": 1,
 		},
 		PSlash: 0.06, PEvidence: 0.03, PDowntime: 0.03, PCrash: 0.02, PGas: 0.05, PDup: 0.03,
+		PDrain:    0.015,
 		PBoundary: 0.25, PHalt: 0.04, Inflation: 0.6, FeeTopups: true, SameBlock: 0.45,
 		Dust: 0.15, Huge: 0.3, TakeRates: []string{"0", "0", "0.000001", "0.001", "0.5", "0.99"},
 		ShortUnbond: 0.8,
@@ -106,6 +109,14 @@ func genConfig(rng *RNG, p *Profile) Config {
 		if rng.Chance(db) {
 			a.ChangeRate = []string{"0.5", "0.9", "0.999", "1.1", "2"}[rng.Intn(5)]
 			a.ChangeIntvlNs = []int64{int64(time.Second), int64(7 * time.Second), int64(time.Minute), int64(time.Hour)}[rng.Intn(4)]
+			// half-configured decay (an interval with rate 1, a rate without interval): accepted by governance,
+			// inert until a later update completes it
+			switch rng.Intn(8) {
+			case 0:
+				a.ChangeRate = "1"
+			case 1:
+				a.ChangeIntvlNs = 0
+			}
 		} else {
 			a.ChangeRate = "1"
 			a.ChangeIntvlNs = 0
@@ -126,6 +137,9 @@ func genConfig(rng *RNG, p *Profile) Config {
 	c.SignedWindow = int64(rng.Range(3, 20))
 	c.MinSigned = []string{"0.05", "0.5", "0.9"}[rng.Intn(3)]
 	c.SlashDowntime = []string{"0.0001", "0.01", "0.5", "1"}[rng.Intn(4)]
+	if p.JailOnly {
+		c.SlashDowntime = "0"
+	}
 	c.SlashDoubleSign = []string{"0.0001", "0.05", "0.5", "1"}[rng.Intn(4)]
 	c.JailNs = []int64{0, int64(5 * time.Second), int64(10 * time.Minute)}[rng.Intn(3)]
 	if rng.Chance(p.Inflation) {
@@ -262,6 +276,12 @@ func (g *genState) govFields(kind string) map[string]string {
 	if r.Chance(0.4) {
 		f["crate"] = []string{"0.5", "0.9", "0.999", "1.1", "2"}[r.Intn(5)]
 		f["cintvl"] = strconv.FormatInt([]int64{int64(time.Second), int64(7 * time.Second), int64(time.Minute), int64(time.Hour)}[r.Intn(4)], 10)
+		switch r.Intn(8) {
+		case 0:
+			f["crate"] = "1"
+		case 1:
+			f["cintvl"] = "0"
+		}
 	} else {
 		f["crate"] = "1"
 		f["cintvl"] = "0"
@@ -465,6 +485,9 @@ func GenSchedule(prop string, seed, run uint64, p *Profile) *Schedule {
 		if p.PBurst > 0 && rng.Chance(p.PBurst) {
 			g.burst(bi)
 		}
+		if p.PDrain > 0 && rng.Chance(p.PDrain) {
+			g.drain(bi)
+		}
 		b.Slashes = append(b.Slashes, g.futureSlash[bi]...)
 		b.Ops = append(b.Ops, g.futureOps[bi]...)
 		nops := rng.Range(0, p.MaxOps)
@@ -532,6 +555,10 @@ func profileForTier(prop string) *Profile {
 	switch prop {
 	case "C01":
 		p.PBurst = 0.08
+	case "C03":
+		p.PDrain = 0.08
+		p.PBurst = 0.05
+		p.TakeRates = []string{"0", "0.000001", "0.001", "0.25", "0.5", "0.99"}
 	case "C17":
 		p.ParamsWild = true
 		p.W["gov_params"] = 8
@@ -579,7 +606,10 @@ func profileForTier(prop string) *Profile {
 	case "C13":
 		// clean configuration: no value-changing events between accrual and claim (those are C12)
 		p.Inflation = 1
-		p.PSlash, p.PEvidence, p.PDowntime = 0, 0, 0
+		p.PSlash, p.PEvidence, p.PDowntime = 0, 0, 0.06
+		p.JailOnly = true // leaving and re-entering the bonded set is not a value-changing event
+		p.W["unjail"] = 8
+		p.W["create_validator"] = 2
 		p.TakeRates = []string{"0"}
 		p.W["claim"] = 18
 		p.W["donate"] = 8
@@ -655,6 +685,36 @@ func describeProfile(p *Profile) string {
 // burst schedules a packed scenario over the next few blocks: the situations the properties single
 // out (several exits of one delegator in one block across validators/denoms, fan-in redelegations,
 // a destination emptied before the source is slashed) are rare under independent random ops.
+// drain: every known position of one asset exits in full (largest validators in no particular order) over
+// two blocks, so that the asset's staked total returns to zero with rounding dust from earlier take-rate
+// deductions and slashes still around; then a second staking cycle starts.
+func (g *genState) drain(bi int) {
+	r := g.rng
+	d := r.Intn(len(g.cfg.Assets))
+	var ps [][3]int
+	for _, p := range g.pos {
+		if p[2] == d {
+			ps = append(ps, p)
+		}
+	}
+	for i := len(ps) - 1; i > 0; i-- {
+		j := r.Intn(i + 1)
+		ps[i], ps[j] = ps[j], ps[i]
+	}
+	for i, p := range ps {
+		at := bi + i%2
+		g.futureOps[at] = append(g.futureOps[at], Op{K: "undelegate", Who: p[0], Val: p[1], Denom: d, Amt: &Amt{All: true}})
+	}
+	// leftovers of positions the generator does not know about (created by packed scenarios)
+	for i := 0; i < 3; i++ {
+		g.futureOps[bi+1] = append(g.futureOps[bi+1], Op{K: "undelegate", Who: r.Intn(g.cfg.Delegators), Val: r.Intn(g.nvals), Denom: d, Amt: &Amt{All: true}})
+	}
+	unit := mustInt(g.cfg.Assets[d].Unit)
+	who, val := r.Intn(g.cfg.Delegators), r.Intn(g.nvals)
+	g.futureOps[bi+2] = append(g.futureOps[bi+2], Op{K: "delegate", Who: who, Val: val, Denom: d, Amt: &Amt{Abs: unit.MulRaw(int64(r.Range(1, 50))).String()}})
+	g.addPos(who, val, d)
+}
+
 func (g *genState) burst(bi int) {
 	r := g.rng
 	who := r.Intn(g.cfg.Delegators)
@@ -695,5 +755,6 @@ func (g *genState) burst(bi int) {
 		g.futureSlash[slashAt] = append(g.futureSlash[slashAt], Op{K: "slash_direct", Val: va, Fraction: frac, Age: 1})
 	}
 	g.addPos(who, va, d1)
+	g.addPos(who, vb, d1)
 	g.lastWho = who
 }
